@@ -262,6 +262,9 @@ def display_image(im, scaling='auto', vert_axis='x', horiz_axis='y',
         im = np.abs(im)
     if scaling == 'auto':
         scaling = (ensure_scalar(im.min()), ensure_scalar(im.max()))
+        if scaling[0] == scaling[1]:
+            # a constant image has no range to stretch
+            scaling = (scaling[0], scaling[0] + 1)
     if scaling is not None:
         im = np.maximum(im, scaling[0])
         im = np.minimum(im, scaling[1])
